@@ -16,6 +16,7 @@ import (
 	"syscall"
 	"time"
 
+	"github.com/ipld/go-ipld-prime/storage"
 	"github.com/ipld/go-ipld-prime/storage/fsstore"
 
 	"verif/internal/core"
@@ -139,8 +140,17 @@ func FsChild(args []string) int {
 			key := fmt.Sprintf("efbig-%d-%d", seed, i)
 			content := efbigContent(seed, i, size)
 			var err error
-			if r.Bool() {
+			if form := r.Intn(3); form == 0 {
 				err = st.Put(ctx, key, content)
+			} else if form == 1 {
+				// the vector form (the store has none of its own: the generic helper drives its stream)
+				var vec [][]byte
+				for lo := 0; lo < len(content); {
+					hi := min(lo+1+r.Intn(4000), len(content))
+					vec = append(vec, content[lo:hi])
+					lo = hi
+				}
+				err = storage.PutVec(ctx, st, key, vec)
 			} else {
 				var w io.Writer
 				var commit func(string) error
